@@ -67,12 +67,16 @@ IMPORTANT for this round: the git history of your worktree contains recent bug-f
 
 SMALL = """For this round produce FOUR changes (`a`, `b`, `c`, `d`) instead of two, and keep each of them SMALL: 1 to 5 changed lines, the kind of edit that slips through review -- a comparison operator or a boundary changed, a condition negated or one conjunct dropped, `is` vs `==`, `and` vs `or`, an argument swapped or left out, a default changed, a statement moved a few lines up or down (before/after a call, into/out of a `try`, `if`, loop), a `break`/`continue`/`return` added or removed, a copy dropped (`list(x)` -> `x`), `sorted(...)` dropped, an attribute read replaced by a neighbouring one, a literal changed. Spread the four changes over different functions (and modules where the property allows it) and over different clauses of the property. Each must still need something specific to manifest (so that the 358 tests stay green) and each must be a realistic slip, not vandalism."""
 
+SMALL2 = SMALL + """
+
+Additionally for this round: AVOID the statements a reviewer would look at first (the `if violation_error is not None: raise ...` gates and the order of the phases in the two `wrapper` closures of `decorate_with_checker`, the loops of `_assert_preconditions`/`_assert_postconditions`, the list concatenations in `_collapse_*`, the `_IN_PROGRESS` set/reset lines). Prefer slips that depend on DATA rather than on control flow: the wrong one of two variables of the same type (`resolved_kwargs` vs `condition_kwargs`, `base` vs `cls`, `func` vs `wrapper`, `node.body` vs `node.orelse`), a wrong dictionary key or attribute name of a sibling (`__postconditions__` for `__preconditions__`, `fset` for `fget`), an index or slice off by one, a `getattr`/`dict.get` default changed, an `except` clause widened or narrowed, a keyword argument not passed on (so the callee's default applies), a `functools.wraps`/`update_wrapper` detail, a condition on `len(...)`/emptiness/`None` that treats one boundary case differently, a string constant of an error message or a reserved name changed in one of two places that must agree, a flag initialised with the wrong value. Also consider the less-travelled code: `_types.py`, `_globals.py`, the decorators' `__init__`, `kwargs_from_call`, `resolve_kwdefaults`, `select_*_kwargs`, `_find_self`, `_already_decorated_with_invariants`, `add_invariant_checks`, `_decorate_new_with_invariants`, `_decorate_namespace_property`, `_dbc_decorate_namespace`, `DBCMeta` itself, `is_lambda`, `inspect_decorator`, `find_lambda_condition`, `collect_variable_lookup`, `_representable`, the rarely used `visit_*` methods of both visitors (Slice, Starred, Dict/Set displays, FormattedValue, JoinedStr, NamedExpr, Lambda, Await), `_execute_comprehension`, `_translate_all_expression_to_a_module`."""
+
 for line in open("/verif/properties.jsonl"):
     rec = json.loads(line)
     pid = rec["id"]
     wt = prefix + pid[1:]
-    if style == "small":
-        st = SMALL
+    if style in ("small", "small2"):
+        st = SMALL if style == "small" else SMALL2
     elif style == "regress":
         hashes = FIXES.get(pid, [])
         relevant = ("The ones most relevant to this property: %s. " % ", ".join(hashes)) if hashes else "Pick whichever of them touches this property's mechanism (if none does, both changes are free). "
@@ -80,7 +84,7 @@ for line in open("/verif/properties.jsonl"):
     else:
         st = REFACTOR if style == "refactor" else QUIET
     text = TEMPLATE.format(wt=wt, out=out, pid=pid, record=json.dumps(rec, indent=1), style=st)
-    if style == "small":
+    if style in ("small", "small2"):
         text = text.replace("Produce TWO independent changes (call them `a`, `b`)", "Produce FOUR independent changes (call them `a`, `b`, `c`, `d`)").replace("`{out}/{pid}/a/`, `.../b/`:".format(out=out, pid=pid), "`{out}/{pid}/a/`, `.../b/`, `.../c/`, `.../d/`:".format(out=out, pid=pid)).replace("a brief description of the two changes", "a brief description of the four changes")
     open(os.path.join(out, "prompt_%s.txt" % pid), "w").write(text)
 print("wrote 20 prompts to", out)
